@@ -233,7 +233,10 @@ def execute(sc):
                         V.bump('silent_valid_command_not_judged')
             if kind == 'matcher':
                 msgs = [m for c in res.conn_manager.connections() for m in c.messages()]
-                for text in texts:
+                # a fixed battery of plainly valid matchers is evaluated on every recorded message as well
+                battery = ['(5)', '(x=5)', '(0)', 'wl_*', '*_v1', '.new', '.destroyed', '5', '3a', '(nil)', '("a")', '(1.5)', '(x=)',
+                           'A: wl_*', 'wl_*.*(*)', '[wl_* ! wl_display]', '(wl_surface)', '([1, 2])', '5.new', 'wl_*.destroyed']
+                for text in list(texts) + battery:
                     V.bump('matcher_texts')
                     try:
                         m = t['matcher'].parse(text)
